@@ -106,7 +106,7 @@ theorem oneSync_local (hsw : sys.swap = false) (hm : rq.mode = .stream) (hph : P
   case h3 hpc _ =>
     refine key _ rfl ?_ h3
     simp [syncTotal, syncDue, hpc, Sub.items]
-  case h4poll hpc hne => exact absurd hm hne
+  case h4poll hpc hne _ => exact absurd hm hne
   case h4stream hpc _ huo =>
     refine key _ rfl ?_ h3
     simp [syncTotal, syncDue, hpc, huo, Sub.items]
